@@ -226,7 +226,7 @@ func TestVerif_C12(t *testing.T) {
 	r.Assume("schedules are those the Go scheduler produces under -race with GOMAXPROCS goroutines in parallel and injected yields; not all interleavings are enumerated")
 	r.Assume("kernel-level retention of used nonces (kernel/cosi.go cosiRetrieveRandom) is not exercised by this check")
 	rng := r.Rand()
-	trials := r.N(3000, 60000)
+	trials := r.N(2000, 60000)
 	r.SetFloor(trials / 8)
 	r.Note("gomaxprocs", runtime.GOMAXPROCS(0))
 
